@@ -26,7 +26,14 @@ ASSUMPTIONS = ["splits of the scikit-learn / verde cross-validators are inputs o
                "plus stress runs under dask's synchronous/threaded schedulers"]
 TRUSTED = ["scikit-learn scorers and clone", "dask.delayed / dask.compute schedulers"]
 
-SCORERS = [None, "r2", "neg_mean_squared_error", "neg_mean_absolute_error", "pinball-0.9-loss"]      # the last: make_scorer(metric, alpha=0.9, greater_is_better=False)
+SCORERS = [None, "r2", "neg_mean_squared_error", "neg_mean_absolute_error", "pinball-0.9-loss", "worst-misfit-loss"]
+# "pinball-0.9-loss": make_scorer(metric, alpha=0.9, greater_is_better=False); "worst-misfit-loss": a user's own metric, the largest absolute
+# misfit - for several components the score is the MEAN over the components of each component's own worst misfit (not the worst of all)
+OPTION_SCORERS = ("pinball-0.9-loss", "worst-misfit-loss")
+
+
+def _worst_misfit(y_true, y_pred, sample_weight=None):
+    return float(np.max(np.abs(np.asarray(y_true, dtype=float) - np.asarray(y_pred, dtype=float))))
 
 
 def scorer_of(scoring):
@@ -34,6 +41,9 @@ def scorer_of(scoring):
     if scoring == "pinball-0.9-loss":
         from sklearn.metrics import make_scorer, mean_pinball_loss
         return make_scorer(mean_pinball_loss, alpha=0.9, greater_is_better=False)
+    if scoring == "worst-misfit-loss":
+        from sklearn.metrics import make_scorer
+        return make_scorer(_worst_misfit, greater_is_better=False)
     return scoring
 
 
@@ -43,7 +53,8 @@ def metric_of(scoring):
     return {None: lambda y, p, w: r2_score(y, p, sample_weight=w), "r2": lambda y, p, w: r2_score(y, p, sample_weight=w),
             "neg_mean_squared_error": lambda y, p, w: -mean_squared_error(y, p, sample_weight=w),
             "neg_mean_absolute_error": lambda y, p, w: -mean_absolute_error(y, p, sample_weight=w),
-            "pinball-0.9-loss": lambda y, p, w: -mean_pinball_loss(y, p, sample_weight=w, alpha=0.9)}[scoring]
+            "pinball-0.9-loss": lambda y, p, w: -mean_pinball_loss(y, p, sample_weight=w, alpha=0.9),
+            "worst-misfit-loss": lambda y, p, w: -_worst_misfit(y, p)}[scoring]
 
 
 def make_cv(spec):
@@ -76,7 +87,7 @@ def mk_cv(coords, shape2d, data, weights, cvspec, scoring, est, kind):
         splits = splits_of(cvspec, coords[0], coords[1])
     except Exception:  # noqa: BLE001
         splits = []
-    if scoring == "pinball-0.9-loss":      # a metric with options is outside the Lean scorer table: decided by the oracle (independent recomputation)
+    if scoring in OPTION_SCORERS:      # a metric with options is outside the Lean scorer table: decided by the oracle (independent recomputation)
         return {"fn": "cv_score", "kind": kind + "-option-scorer", "args": [coords, shape2d, data, weights, cvspec, scoring, est], "op": "splinecv_select [ [ 0 ] ]",
                 "key": repr((coords, data, weights, cvspec, est))}
     return {"fn": "cv_score", "kind": kind, "args": [coords, shape2d, data, weights, cvspec, scoring, est],
@@ -128,6 +139,9 @@ def corpus():
         cs.append(mk_cv(coords, shape2d, data, weights, ["kfold", 3, False, 0], sc, "moment", "corpus"))
     cs.append(mk_cv(coords, shape2d, data[:1], None, ["kfold", 4, True, 3], None, "trend", "corpus-trend"))
     cs.append(mk_cv(coords, shape2d, data, weights, ["blockkfold", 2, True, 1, [2, 2]], "r2", "moment", "corpus-block"))
+    # two components, NO weights, a metric that does not separate over components (the score is the mean of the per-component scores)
+    cs.append(mk_cv(coords, shape2d, data[:2], None, ["kfold", 3, True, 11], "worst-misfit-loss", "vector", "corpus-vector-unweighted-nonseparable-metric"))
+    cs.append(mk_score(coords[:2], [len(coords[0])], data[:2], None, "worst-misfit-loss", "vector", "corpus-vector-unweighted-nonseparable-metric"))
     # an estimator whose `fit` is a forwarding wrapper (no `weights` in its signature): weighted fit on the training rows all the same
     wfw = [[0.25 + ((5 * k) % 7) * (8.0 if k % 3 == 0 else 0.5) for k in range(len(coords[0]))]]
     cs.append(mk_cv(coords, shape2d, data[:1], wfw, ["kfold", 3, True, 5], "r2", "trendw", "corpus-forwarding-fit-weights"))
@@ -421,7 +435,7 @@ def _splinecv(a):
 
 def compare(case, io, mo):
     fn = case["fn"]
-    if fn in ("splinecv", "score") or (fn == "cv_score" and (case["args"][6] in REAL or case["args"][5] == "pinball-0.9-loss")):
+    if fn in ("splinecv", "score") or (fn == "cv_score" and (case["args"][6] in REAL or case["args"][5] in OPTION_SCORERS)):
         return "ok"      # no model counterpart: decided by the oracle on the implementation
     if fn == "cv_score":
         e = C.err_compare(io, mo)
